@@ -98,6 +98,7 @@ class ScopeNameFinder:
         expressions += [arg.annotation for arg in all_args if arg.annotation]
         if getattr(node, "returns", None) is not None:
             expressions.append(node.returns)
+        expressions += getattr(node, "decorator_list", [])
         for expression in expressions:
             start = self.lines.get_line_start(expression.lineno)
             start += expression.col_offset
